@@ -2,6 +2,8 @@
 (* Trace specification of C15: replays the batches recorded by harness bin c15        *)
 (* (every descriptor of one kind applied to one valid encoding of one parser, each    *)
 (* case executed in a child process) through the contract of Parser.tla.              *)
+(* A run = one parser (reset.parser); the validation subject (reset.subject) is the   *)
+(* family of the parser, so that a family with known findings is re-validated once.   *)
 EXTENDS Parser, TraceIO, Known_Parser
 
 VARIABLES l, subj, kf
@@ -14,7 +16,7 @@ ParOfEvent(e) == [win |-> subj.win, combo |-> e.combo, raw |-> subj.raw]
 
 Step(e) ==
     /\ e.op = "parse"
-    /\ e.parser = subj.subject
+    /\ e.parser = subj.parser
     /\ ParseBatch(e, ParOfEvent(e))
 
 TraceNext ==
@@ -25,7 +27,7 @@ TraceNext ==
        THEN tally' = [ok |-> 0, err |-> 0, batches |-> 0] /\ subj' = e /\ kf' = kf
        ELSE /\ subj' = subj
             /\ IF UseKF /\ DevApplies(e, subj)
-               THEN KnownBatch(e, subj, ParOfEvent(e)) /\ e.parser = subj.subject /\ kf' = kf \cup DevIds(e, subj)
+               THEN KnownBatch(e, subj, ParOfEvent(e)) /\ e.parser = subj.parser /\ kf' = kf \cup DevIds(e, subj)
                ELSE Step(e) /\ kf' = kf
 
 TraceSpec == TraceInit /\ [][TraceNext]_vars
